@@ -130,10 +130,20 @@ L2F_SRC = ("class C:\n    base = 5\n\n    def m(self, a):\n        t = a + self.
            "    def n(self):\n        t = 1\n        return t + self.m(1)\n\n\nprint(C().m(2), C().n())\n")
 
 
+# the local is also read inside a nested function with a parameter, a nested function without one and a lambda
+L2F_SRC2 = ("class C:\n    base = 5\n\n    def m(self, a):\n        t = a + self.base\n\n        def inner(extra):\n            return t + extra\n\n"
+            "        def bare():\n            return t * 2\n        g = lambda z: z + t\n        return inner(1) + bare() + g(2) + t\n\n\nprint(C().m(2))\n")
+L2F_SRCS = [L2F_SRC, L2F_SRC2]
+
+
 def l2f_cases():
     out = []
     for var, nth in (("t", 0), ("t", 1), ("u", 0), ("u", 1), ("i", 0), ("a", 1), ("t", 3)):
         out.append({"r": "l2f", "var": var, "nth": nth})
+    for nth in range(5):
+        out.append({"r": "l2f", "var": "t", "nth": nth, "src": 1})
+    for var in ("extra", "z", "a"):
+        out.append({"r": "l2f", "var": var, "nth": 1, "src": 1})
     return out
 
 
@@ -144,7 +154,9 @@ UF_FUNCS = {
     "noret": "def sq(x):\n    print(x * x + 1)\n",
 }
 UF_USES = {
-    "expr": ["print(3 * 3 + 1)", "a = 4\nprint(a * a + 1)", "b = 2\nc = b * b + 1\nprint(c)", "print(2 * 3 + 1)", "print((1 + 1) * (1 + 1) + 1)"],
+    "expr": ["print(3 * 3 + 1)", "a = 4\nprint(a * a + 1)", "b = 2\nc = b * b + 1\nprint(c)", "print(2 * 3 + 1)", "print((1 + 1) * (1 + 1) + 1)",
+             # near misses: a literal that is equal but of another type, another value, another operator
+             "print(3 * 3 + 1.0)", "print(3 * 3 + True)", "print(3 * 3 + 2)", "print(3 * 3 - 1)", "print(3 * 3 + (1+0j))"],
     "stmts": ["a = 4\ny = a * a\nprint(y + 1)", "k = 2\nz = k * k\nprint(z + 1)", "print(3 * 3 + 1)"],
     "noret": ["print(3 * 3 + 1)", "a = 5\nprint(a * a + 1)"],
 }
@@ -213,7 +225,6 @@ class C17(Check):
             off = src.index("def f") + 4
             out.append(("at-def", "xd.py", off, lambda p, res, off: MethodObject(p, res, off).get_changes(classname=case["classname"])))
         elif r == "l2f":
-            off = nth_offset(files["xd.py"], " " + case["var"] + " ", case["nth"]) + 1 if case["var"] != "a" else nth_offset(files["xd.py"], "a", 0)
             # find the n-th identifier token equal to var
             from ..progx import name_tokens
             toks = [t for t in name_tokens(files["xd.py"]) if t[2] == case["var"]]
@@ -227,7 +238,7 @@ class C17(Check):
     def run(self, case):
         triage = os.environ.get("MC_TRIAGE") == "1"
         res = {"n": 0, "nt": [], "out": {}, "mech": {}, "fails": [], "refused": 0, "passfeat": []}
-        files = {"enc": enc_project, "fac": fac_project, "mo": mo_project, "uf": uf_project}.get(case["r"], lambda c: {"xd.py": L2F_SRC})(case)
+        files = {"enc": enc_project, "fac": fac_project, "mo": mo_project, "uf": uf_project}.get(case["r"], lambda c: {"xd.py": L2F_SRCS[c.get("src", 0)]})(case)
         if compiles(files):
             return {"harness": "generated project does not compile: %r" % files}
         base = run_project(files)
